@@ -60,6 +60,14 @@ let run (_prop : string) (inp : Sx.t) (obs : Sx.t) : outcome =
             else Some (Printf.sprintf "sig=heartbeat-lost-after-pending %s: the answer to our TestRequest arrived %d ms after it (after our heartbeat timer had fired while the answer was pending); the peer stayed alive for %d ms and we sent no Heartbeat in 2.5 intervals: the one-shot heartbeat timer is not re-armed"
                          where (answer_at - tr_at) (hangup_at - answer_at))
           end else None
+        | "slowlogon" ->
+          if answer_at >= 0 && hangup_at >= 0 && fl answer_at >= 1.05 *. hf && fl answer_at <= 1.3 *. hf
+             && hangup_at - answer_at >= (5 * h) / 2 then begin
+            judged := true;
+            if List.exists (fun t -> t > answer_at && fl (t - answer_at) <= 2.5 *. hf) (times "t0") then None
+            else Some (Printf.sprintf "sig=heartbeat-lost-after-slow-logon %s: initiator; the peer answered the Logon %d ms after it (after the initiator's heartbeat timer had fired during the handshake), stayed alive for %d ms and got no Heartbeat in 2.5 intervals"
+                         where answer_at (hangup_at - answer_at))
+          end else None
         | _ -> None
       end
     | _ -> Some "sig=clock-harness the observation is malformed"
@@ -70,7 +78,7 @@ let run (_prop : string) (inp : Sx.t) (obs : Sx.t) : outcome =
   let bad = match first 0 conns with
     | Some m -> Some m
     | None ->
-      if kind <> "late" && List.length conns < nconns then
+      if kind <> "late" && kind <> "slowlogon" && List.length conns < nconns then
         Some (Printf.sprintf "sig=connection-not-released only %d of %d connections could be made on the session" (List.length conns) nconns)
       else None in
   { model = obs; spec_ok = (bad = None); spec_msg = (match bad with Some m -> m | None -> "");
